@@ -11,7 +11,7 @@ PATCH=$ROOT/seeded/$ID/patch.diff
 [ -f "$PATCH" ] || { echo "no such seed: $ID"; exit 2; }
 CHECKS=${*:-$(python3 -c "import json;print(json.load(open('$ROOT/seeded/$ID/meta.json'))['breaks'])")}
 COPY=/var/tmp/zv-seed-repo-$$
-SCR=/var/tmp/zv-seed-work
+SCR=${ZV_SCR:-/var/tmp/zv-seed-work}
 mkdir -p "$COPY" "$SCR/evidence" "$SCR/replays"
 (cd /repo && git archive HEAD | tar -x -C "$COPY") || exit 2
 (cd "$COPY" && git apply "$PATCH") || { echo "patch does not apply"; rm -rf "$COPY"; exit 2; }
